@@ -8,14 +8,14 @@
 #include "nd.h"
 using namespace rtosc;
 
-struct Rec { int hits; const Port *port; void *obj; char loc[24]; int has_loc; };
+struct Rec { int hits; const Port *port; void *obj; char loc[32]; int has_loc; };
 #define NREC 16
 static Rec rec[NREC];
 static char objmem[64];
 static void record(int k, const char *m, RtData &d)
 {
     rec[k].hits++; rec[k].port = d.port; rec[k].obj = d.obj; rec[k].has_loc = d.loc != 0;
-    if(d.loc) { int e = 0; for(int j = 0; j < 23; j++) { rec[k].loc[j] = e ? 0 : d.loc[j]; if(!d.loc[j]) e = 1; } rec[k].loc[23] = 0; }
+    if(d.loc) { int e = 0; for(int j = 0; j < 31; j++) { rec[k].loc[j] = e ? 0 : d.loc[j]; if(!d.loc[j]) e = 1; } rec[k].loc[31] = 0; }
     (void)m;
 }
 #define LEAF(K) [](const char *msg, RtData &d) { record(K, msg, d); }
@@ -71,8 +71,8 @@ static int ref_port(const char *name, const char *a, const char *tags, int *dont
     return p;
 }
 
-static char msg[32];
-static char loc[32];
+static char msg[48];
+static char loc[40];
 static RtData d;
 static int exp_hits[NREC], exp_dc[NREC];
 
@@ -150,7 +150,7 @@ extern "C" void harness(void)
               int n = 0; while(msg[n]) n++;
               int upto = n;
               if(k == ROOT_SUBIDX) { upto = 1; while(msg[upto] && msg[upto] != '/') upto++; if(msg[upto] == '/') upto++; }
-              int same = 1; for(int j = 0; j < 23; j++) { char want = j < upto ? msg[j] : 0; if(rec[k].loc[j] != want) same = 0; }
+              int same = 1; for(int j = 0; j < 31; j++) { char want = j < upto ? msg[j] : 0; if(rec[k].loc[j] != want) same = 0; }
               CHECK(same, "C04 with a location buffer the callback sees the full address in it"); }
 #endif
         }
